@@ -24,9 +24,7 @@ def run_watch(ctx, iters, stall_step, label="w"):
     ctx.notes["runs"] = ctx.notes.get("runs", 0) + len(traces)
     for tr in traces[:1] + traces[len(traces) // 2:len(traces) // 2 + 1]:
         ctx.sample(tr)
-    CH = 8000
-    for i in range(0, len(traces), CH):
-        vlib.check_traces(ctx, traces[i:i + CH], "%s%d" % (label, i // CH), module="TraceEchWatch", cfg="TraceEchWatch.cfg", specname="EchWatch.tla")
+    vlib.check_traces_chunks(ctx, traces, 3000 if ctx.quick else 12000, label, module="TraceEchWatch", cfg="TraceEchWatch.cfg", specname="EchWatch.tla")
     return traces
 
 
